@@ -306,6 +306,22 @@ def d5_partial(chk: Check) -> None:
 
 def _pair(site: partial.Site) -> Optional[str]:
     node = site.node
+    # <coords>.path_segment[0|1]: a path segment is a (type, attributes)
+    # pair (C14 INV-SEGMENT-PAIR) unless the coordinates carry none, which
+    # the enclosing `... is None or ...` rules out before the subscript
+    if isinstance(node, ast.Subscript) and \
+            isinstance(node.value, ast.Attribute) and \
+            node.value.attr == "path_segment" and \
+            isinstance(node.slice, ast.Constant) and \
+            node.slice.value in (0, 1):
+        for a in ancestors(node):
+            if isinstance(a, ast.BoolOp) and isinstance(a.op, ast.Or) and \
+                    any(src(v).replace(" ", "") ==
+                        src(node.value) + "isNone" for v in a.values[:-1]):
+                return "segment pair; `{} is None` short-circuits " \
+                       "first".format(src(node.value))
+            if isinstance(a, ast.stmt):
+                break
     if isinstance(node, ast.Subscript) and \
             isinstance(node.value, ast.Subscript) and \
             "ancestry" in src(node.value.value) and \
@@ -912,9 +928,54 @@ def d4b_refusal_before_any_deletion(chk: Check) -> None:
                  "if it were the root".format(sorted(lk), missing))
 
 
+def d3b_merge_arm_needs_anchor_segment(chk: Check) -> None:
+    """Inside a hash the same text can name two things: a key, and -- as an
+    anchor segment `[&name]` -- a `<<: *name` reference.  The coordinates
+    of both carry the text as parentref, so only the *segment type* of the
+    match tells them apart.  The arm of _delete_nodes that removes a merge
+    reference (and the keys it contributed) is entered only for a match
+    made by an ANCHOR segment; a KEY (or `*`) match of a key spelled like
+    the anchor deletes that key."""
+    prog = chk.prog
+    chk.rule("C04-D3b", "the merge-reference arm of _delete_nodes is "
+             "entered only for a match made by an ANCHOR segment", floor=1)
+    dn = prog.func("Processor._delete_nodes")
+    loop = [n for n in dn.node.body if isinstance(n, ast.For)][0]
+    item = src(loop.target)
+    merges = [n for n in walk_local(loop) if isinstance(n, ast.For) and
+              ".merge" in src(n.iter)]
+    if not merges:
+        raise AnalysisError("merge-reference arm of _delete_nodes not found")
+    arm = merges[0]
+    from sa.coords import reaching_def
+    texts = []
+    for f in facts_at(arm):
+        if f.kind != "cond" or not f.pol:
+            continue
+        texts.append(src(f.expr))
+        if isinstance(f.expr, ast.Name):
+            d = reaching_def(f.expr.id, arm)
+            if d is not None:
+                texts.append(src(d))
+    ok = any("PathSegmentTypes.ANCHOR" in t and
+             "{}.path_segment".format(item) in t for t in texts)
+    text = "merge-reference arm (for ... in {})".format(src(arm.iter)[:30])
+    if ok:
+        chk.ok("C04-D3b", dn, arm, text,
+               "only for `{}.path_segment[0] is PathSegmentTypes.ANCHOR` "
+               "(or coordinates without a segment)".format(item))
+    else:
+        chk.fail("C04-D3b", dn, arm, text,
+                 "the arm is chosen by the spelling of parentref alone: "
+                 "deleting the *key* `name` of a hash that also merges "
+                 "`&name` removes the merge reference (and the inherited "
+                 "keys) and keeps the key")
+
+
 def run(chk: Check) -> None:
     d1_d2(chk)
     d3_d4(chk)
+    d3b_merge_arm_needs_anchor_segment(chk)
     d4b_refusal_before_any_deletion(chk)
     d5_partial(chk)
     d6_always_acts(chk)
